@@ -62,6 +62,14 @@ class NdVec:
         return NdVec(self.items, self.kind)
 
 
+class OptVal:
+    """Optional[value]: `is_none` (z3 Bool) tells whether the variable holds None, otherwise it holds `value`"""
+
+    def __init__(self, is_none, value):
+        self.is_none = is_none
+        self.value = value
+
+
 class Obj:
     """opaque object: attrs (name -> value) and methods (name -> python callable(ctx, *args, **kw))"""
 
